@@ -51,6 +51,7 @@ ADJ_FIELDS = {
     "cleanup_interval": ("cleanup_interval", "Z"),
     "channel_timeout": ("channel_timeout", "Z"),
     "send_bytes": ("send_bytes", "Z"),
+    "outbuf_high_watermark": ("outbuf_high_watermark", "Z"),
 }
 
 CMP = {
@@ -307,7 +308,8 @@ SIG = {
     "gen_chan_readable": [("will_close", "bool"), ("close_when_flushed", "bool"), ("len_requests", "Z"),
                           ("channel_request_lookahead", "Z"), ("total_outbufs_len", "Z")],
     "gen_chan_writable": [("total_outbufs_len", "Z"), ("will_close", "bool"), ("close_when_flushed", "bool")],
-    "gen_hw_flush": [("len_requests", "Z"), ("total_outbufs_len", "Z"), ("send_bytes", "Z")],
+    "gen_hw_flush": [("len_requests", "Z"), ("total_outbufs_len", "Z"), ("send_bytes", "Z"),
+                     ("outbuf_high_watermark", "Z")],
     "gen_hw_after": [("close_when_flushed", "bool"), ("will_close", "bool"), ("total_outbufs_len", "Z")],
     "gen_maint_cutoff": [("now", "Z"), ("channel_timeout", "Z")],
     "gen_maint_test": [("len_requests", "Z"), ("last_activity", "Z"), ("cutoff", "Z")],
